@@ -264,7 +264,7 @@ fn run(ctx: &Ctx, rep: &Report) {
         let cfg = gen_cfg(&mut r, &GenOpts { max_files: 2, all_levels: false, ..Default::default() });
         if let Ok(p) = build(&cfg, &dir) {
             if let Ok(b) = pkg_bytes(&p) {
-                if i < 2 && b.len() < 8192 {
+                if i < ctx.tier.pick(2, 24) && b.len() < 8192 {
                     flip_bases.push((format!("built-{i}"), b.clone()));
                 }
                 inputs.push((format!("built-random-{i}"), b));
@@ -292,7 +292,7 @@ fn run(ctx: &Ctx, rep: &Report) {
         for (id, out) in outs {
             rep.eval(1);
             let (label, bytes) = &inputs[id as usize];
-            let fam = label.split(':').next().unwrap_or("");
+            let fam = label.split(':').next().unwrap_or("").trim_end_matches(|c: char| c.is_ascii_digit() || c == '-');
             let (exp, why) = expected(bytes);
             let w = || json!({"label": label, "expected": format!("{exp:?}"), "reason": why, "input_hex": hex::encode(bytes)});
             match out {
